@@ -20,11 +20,15 @@ func ObjectToJSON(object interface{}) (string, error) {
 
 // JSONMarshal convert object to json (and prepare json to be more user friendly)
 func JSONMarshal(v interface{}, unescape bool) ([]byte, error) {
-	b, err := json.MarshalIndent(v, "", "  ")
-	if unescape {
-		b = bytes.Replace(b, []byte("\\u003c"), []byte("<"), -1)
-		b = bytes.Replace(b, []byte("\\u003e"), []byte(">"), -1)
-		b = bytes.Replace(b, []byte("\\u0026"), []byte("&"), -1)
+	// the encoder itself is told not to escape <, > and &: replacing the escapes in the
+	// encoded text afterwards also hit the escaped backslash of a literal \u003c in a string
+	// and produced invalid JSON
+	var buf bytes.Buffer
+	encoder := json.NewEncoder(&buf)
+	encoder.SetIndent("", "  ")
+	encoder.SetEscapeHTML(!unescape)
+	if err := encoder.Encode(v); err != nil {
+		return nil, err
 	}
-	return b, err
+	return bytes.TrimSuffix(buf.Bytes(), []byte("\n")), nil
 }
